@@ -53,6 +53,7 @@ type Case struct {
 	Delay    string   `json:"delay"` // "" | "link0" (hold link 0 while the stream starts) | "rotate" (hold links in turn)
 	GrowPool bool     `json:"growpool"`
 	Parallel bool     `json:"parallel"` // senders S1 and S2 work concurrently
+	Stagger  bool     `json:"stagger"`  // node B is started more than a second before node A (different incarnation stamps)
 }
 
 type Script struct {
@@ -298,8 +299,12 @@ func (r *DRunner) RunCase(c *Case) error {
 	r.seq++
 	tag := fmt.Sprintf("%d_%d", os.Getpid()%10000, r.seq)
 	flags := gen.NetworkFlags{Enable: true, EnableImportantDelivery: true, EnableRemoteSpawn: true}
-	p, err := StartPair(NodeOpts{Name: "da" + tag + "@localhost", Cookie: "ck", PoolSize: c.Pool, Flags: flags},
-		NodeOpts{Name: "db" + tag + "@localhost", Cookie: "ck", PoolSize: c.Pool, Flags: flags, MaxMsgSize: c.MaxSize})
+	gap := time.Duration(0)
+	if c.Stagger {
+		gap = 1100 * time.Millisecond
+	}
+	p, err := StartPairStaggered(NodeOpts{Name: "da" + tag + "@localhost", Cookie: "ck", PoolSize: c.Pool, Flags: flags},
+		NodeOpts{Name: "db" + tag + "@localhost", Cookie: "ck", PoolSize: c.Pool, Flags: flags, MaxMsgSize: c.MaxSize}, gap)
 	if err != nil {
 		return err
 	}
